@@ -450,8 +450,17 @@ def run_guard(acts):
 # ------------------------------------------------------------------ constify
 
 
+class _Opaque:
+    """an object constify knows nothing about (mutable, hashable by identity)"""
+
+    def __init__(self, z):
+        self.z = z
+
+
 def to_py(v):
     k = v[0]
+    if k == 10:
+        return _Opaque(v[1])
     if k == 1:
         return v[1]
     if k == 2:
@@ -494,6 +503,8 @@ def from_py(o):
         return [8, [[from_py(a), from_py(b)] for a, b in o.items()]]
     if isinstance(o, dns.immutable.Dict):
         return [9, [[from_py(a), from_py(b)] for a, b in o.items()]]
+    if isinstance(o, _Opaque):
+        return [10, o.z]
     raise ValueError(type(o))
 
 
@@ -752,7 +763,7 @@ def gen_rds_case(rng, nops):
 # (two of them equal-but-distinct), 2 registers
 
 
-def exh_rds(main, n):
+def exh_rds(main, n, core=False):
     uni = make_universe([(main, 0), (main, 1), (main, 2)])
     c, t = uni[0][1], uni[0][2]
     pre = [[1, 0, c, t, 0, 0], [1, 1, c, t, 0, 7]]
@@ -765,6 +776,8 @@ def exh_rds(main, n):
         [13, 1, 1, 0, 1], [13, 3, 0, 1, 0], [13, 4, 1, 0, 1], [13, 2, 0, 0, 0],
         [14, 4, 0, 1],
     ]
+    if core:
+        alpha = [alpha[i] for i in (0, 1, 2, 4, 5, 6, 8, 9, 10, 12, 15, 20)]
     for seq in itertools.product(range(len(alpha)), repeat=n):
         yield [2, uni, pre + [alpha[i] for i in seq]]
 
@@ -790,6 +803,8 @@ CI_PAIRS = [("NS", 0, 1), ("NS", 3, 4), ("NS", 5, 6), ("MX", 0, 1), ("CNAME", 0,
 
 def gen_pval(rng, depth, frozen_ok=True):
     r = rng.random()
+    if r < 0.03:
+        return [10, rng.randrange(5)]
     if depth <= 0 or r < 0.35:
         k = rng.randrange(5)
         if k == 0:
@@ -848,16 +863,17 @@ def cases(ctx):
         ctx.notes["exhaustive_scopes"] = "quick: all op sequences of length 2 over 3 records x 2 registers (23-op Rdataset alphabet: NS, CNAME; 29-op Set alphabet)"
     else:
         scopes = [("exh-rds-NS", exh_rds("NS", 3)), ("exh-rds-CNAME", exh_rds("CNAME", 3)),
-                  ("exh-rds-RRSIG", exh_rds("RRSIG", 3)), ("exh-set", exh_set(3))]
-        ctx.notes["exhaustive_scopes"] = "thorough: all op sequences of length 3 over 3 records x 2 registers (23-op Rdataset alphabet: NS, CNAME, RRSIG; 29-op Set alphabet); length 4 over the 12-op core alphabet"
+                  ("exh-rds-RRSIG", exh_rds("RRSIG", 2)), ("exh-set", exh_set(3)),
+                  ("exh4-rds-NS", exh_rds("NS", 4, core=True))]
+        ctx.notes["exhaustive_scopes"] = "thorough: all op sequences of length 3 over 3 records x 2 registers (23-op Rdataset alphabet: NS, CNAME; RRSIG length 2; 29-op Set alphabet); length 4 over the 12-op core Rdataset alphabet (NS)"
     for kind, gen in scopes:
         for c in gen:
             yield kind, c
     ctx.notes["exhaustive"] = True
     # ---- random op sequences
-    for _ in range(ctx.n(500, 12000)):
+    for _ in range(ctx.n(500, 8000)):
         yield "set", gen_set_case(rng, rng.choice([4, 8, 12, 20]))
-    for _ in range(ctx.n(900, 25000)):
+    for _ in range(ctx.n(900, 16000)):
         yield "rds", gen_rds_case(rng, rng.choice([4, 8, 12, 20]))
     # ---- record comparisons: all pairs inside each family + cross-family samples
     fams = sorted(FAMILIES)
@@ -1333,3 +1349,213 @@ def oracle(ctx, kind, case, out):
         if _shape(out) != _shape(case[1]):
             fail("constify changed the content", sig="constify")
     return F[:3]
+
+
+# ------------------------------------------------------------------ extra: finite enumeration of immutability
+# every Rdata subclass x every slot: setattr/delattr must raise and leave the value alone;
+# every field value must be of an immutable type (bytes, int, str, float, enum, None, tuple of
+# such, Name, immutable.Dict of such, or an @immutable object with such fields).
+
+SAMPLES = [
+    ("IN", "TYPE999", "\\# 8 0a0000010a000001"),
+    ("IN", "AFSDB", "0 hostname.example."),
+    ("IN", "AMTRELAY", "0 0 0 ."),
+    ("IN", "AMTRELAY", "10 0 3 relay.example."),
+    ("IN", "AMTRELAY", "10 1 1 192.0.2.1"),
+    ("IN", "AVC", '"app-name:WOLFGANG|app-class:OAM|business=yes"'),
+    ("IN", "BRID", "AQIDBA=="),
+    ("IN", "CAA", '0 issue "ca.example.net"'),
+    ("IN", "CDNSKEY", "256 3 8 AwEAAbmiLgh411Pz3v3XCSBrvYf52A/G"),
+    ("IN", "CDS", "12345 3 1 123456789abcdef67890123456789abcdef67890"),
+    ("IN", "CERT", "65534 65535 PRIVATEOID MxFcby9k/yvedMfQgKzhH5er0Mu/vILz"),
+    ("IN", "CNAME", "cname-target."),
+    ("IN", "CSYNC", "12345 0 A MX RRSIG NSEC TYPE1234"),
+    ("IN", "DLV", "12345 3 1 123456789abcdef67890123456789abcdef67890"),
+    ("IN", "DNAME", "dname-target.example."),
+    ("IN", "DNSKEY", "257 3 1 AQMFD5raczCJHViKtLYhWGz8hMY9UGRu"),
+    ("IN", "DS", "12345 3 1 123456789abcdef67890123456789abcdef67890"),
+    ("IN", "DSYNC", "CDS NOTIFY 5300 notify-endpoint.parent.net."),
+    ("IN", "EUI48", "00-00-5e-00-53-2a"),
+    ("IN", "EUI64", "00-00-5e-ef-10-00-00-2a"),
+    ("IN", "GPOS", "-22.6882 116.8652 250.0"),
+    ("IN", "HHIT", "AQIDBA=="),
+    ("IN", "HINFO", '"Generic PC clone" "NetBSD-1.4"'),
+    ("IN", "HIP", "2 200100107b1a74df365639cc39f1d578 AwEAAbdxyhNuSutc5EMzxTs9LBPCIkOFH8cIvM4p rvs1.example.com. rvs2.example.com."),
+    ("IN", "ISDN", '"isdn-address" "subaddress"'),
+    ("IN", "KEY", "256 3 8 AQID"),
+    ("IN", "L32", "10 10.1.2.0"),
+    ("IN", "L64", "10 2001:0DB8:1140:1000"),
+    ("IN", "LOC", "60 9 0.000 N 24 39 0.000 E 10.00m 20.00m 2000.00m 20.00m"),
+    ("IN", "LP", "10 l64-subnet1.example.com."),
+    ("IN", "MX", "10 mail.example."),
+    ("IN", "NID", "10 0014:4fff:ff20:ee64"),
+    ("IN", "NINFO", '"a" "b"'),
+    ("IN", "NS", "ns1.example."),
+    ("IN", "NSEC", "a.secure.example. A MX RRSIG NSEC TYPE1234"),
+    ("IN", "NSEC3", "1 1 12 aabbccdd 2t7b4g4vsa5smi47k61mv5bv1a22bojr NS SOA MX RRSIG DNSKEY NSEC3PARAM"),
+    ("IN", "NSEC3PARAM", "1 1 12 aabbccdd"),
+    ("IN", "OPENPGPKEY", "AQIDBA=="),
+    ("IN", "PTR", "foo.net."),
+    ("IN", "RESINFO", '"qnamemin" "exterr=15,16,17"'),
+    ("IN", "RP", "mbox-dname.example. txt-dname.example."),
+    ("IN", "RRSIG", "NSEC 1 3 3600 20200101000000 20030101000000 2143 foo.example. MxFcby9k/yvedMfQgKzhH5er0Mu/vILz"),
+    ("IN", "RT", "0 intermediate-host.example."),
+    ("IN", "SIG", "A 8 2 3600 20200101000000 20030101000000 2143 foo. MxFcby9k"),
+    ("IN", "SMIMEA", "3 1 1 a9cdf989b504fe5dca90c0d2167b6550570734f7c763e09fdf88904e06157065"),
+    ("IN", "SOA", "ns1.example. hostmaster.example. 1 2 3 4 5"),
+    ("IN", "SPF", '"v=spf1 mx -all"'),
+    ("IN", "SSHFP", "1 1 aa549bfe898489c02d1715d97d79c57ba2fa76ab"),
+    ("IN", "TLSA", "3 1 1 a9cdf989b504fe5dca90c0d2167b6550570734f7c763e09fdf88904e06157065"),
+    ("IN", "TXT", '"foo" "bar"'),
+    ("IN", "URI", '10 1 "ftp://ftp1.example.com/public"'),
+    ("IN", "WALLET", '"EXAMPLE" "01234567890abcdef"'),
+    ("IN", "X25", '"123456789"'),
+    ("IN", "ZONEMD", "2018031900 1 1 62e6cf51b02e54b9b5f967d547ce43136792901f9f88e637493daaf401c92c279dd10f0edb1c56f8080211f8480ee306"),
+    ("IN", "A", "10.0.0.1"),
+    ("IN", "AAAA", "2001:db8::1"),
+    ("IN", "APL", "1:192.168.32.0/21 !1:192.168.38.0/28 2:ff00::/8"),
+    ("IN", "DHCID", "AAIBY2/AuCccgoJbsaxcQc9TUapptP69lOjxfNuVAA2kjEA="),
+    ("IN", "HTTPS", '1 . port="8002" ech="abcd"'),
+    ("IN", "IPSECKEY", "10 1 2 192.0.2.38 AQNRU3mG7TVTO2BkR47usntb102uFJtugbo6BSGvgqt4AQ=="),
+    ("IN", "IPSECKEY", "10 3 2 mygateway.example.com. AQNRU3mG7TVTO2BkR47usntb102uFJtugbo6BSGvgqt4AQ=="),
+    ("IN", "KX", "10 kdc.example."),
+    ("IN", "NAPTR", '65535 65535 "blurgh" "blorf" "blegh" foo.'),
+    ("IN", "NSAP", "0x47000580005a0000000001e133ffffff00016100"),
+    ("IN", "NSAP-PTR", "foo."),
+    ("IN", "PX", "65535 foo. bar."),
+    ("IN", "SRV", "65535 65535 65535 old-slow-box.example.com."),
+    ("IN", "SVCB", '100 foo.com. mandatory="alpn,port" alpn="h2,h3" no-default-alpn port="12345" ipv4hint="1.2.3.4,4.3.2.1" ech="abcd" ipv6hint="1::2,3::4" key12345="foo"'),
+    ("IN", "WKS", "10.0.0.1 6 0 1 2 21 23"),
+    ("CH", "A", "a. 0101"),
+]
+# types without a text form: built from wire
+WIRE_SAMPLES = [
+    ("ANY", "OPT", "000a0008" + "0102030405060708" + "00030002" + "6162" + "0008000700011800c00002" + "000f00040012" + "6869"),
+    ("ANY", "TSIG", "0b686d61632d73686132353600" + "00005e0be100" + "012c" + "0004" + "deadbeef" + "1234" + "0000" + "0000"),
+    ("ANY", "TKEY", "0b686d61632d73686132353600" + "5e0be100" + "5e0be200" + "0003" + "0000" + "0004" + "01020304" + "0002" + "aabb"),
+]
+
+
+def _rdata_subclasses():
+    seen = set()
+    todo = [dns.rdata.Rdata]
+    while todo:
+        c = todo.pop()
+        for s_ in c.__subclasses__():
+            if s_ not in seen and s_ is not _Guarded and not s_.__module__.startswith("pC07"):
+                seen.add(s_)
+                todo.append(s_)
+    return seen
+
+
+def _nf_wrapped(f):
+    return getattr(f, "__qualname__", "").startswith("_immutable_init.")
+
+
+def _probe_object(o, label, F, count):
+    """setattr / delattr on every slot, every __dict__ entry and a new name must raise TypeError
+    and change nothing"""
+    names = list(itertools.chain.from_iterable(getattr(c, "__slots__", []) for c in type(o).__mro__))
+    if isinstance(names, str):
+        names = [names]
+    names += list(getattr(o, "__dict__", {}).keys()) + ["brand_new_attribute"]
+    sentinel = object()
+    for nme in names:
+        before = getattr(o, nme, sentinel)
+        for what, f in (("setattr", lambda: setattr(o, nme, 12345)), ("delattr", lambda: delattr(o, nme))):
+            count[0] += 1
+            try:
+                f()
+                F.append({"kind": "immutable:" + what, "what": f"{what}({label}, {nme!r}) did not raise", "cls": label, "attr": nme})
+            except TypeError:
+                pass
+            except Exception as e:  # noqa
+                F.append({"kind": "immutable:" + what, "what": f"{what}({label}, {nme!r}) raised {type(e).__name__}, not TypeError", "cls": label, "attr": nme})
+            after = getattr(o, nme, sentinel)
+            if after is not before:
+                F.append({"kind": "immutable:changed", "what": f"{what}({label}, {nme!r}) changed the attribute", "cls": label, "attr": nme})
+
+
+def extra(ctx):
+    F = []
+    count = [0]
+    saved = dns.rdata._dynamic_load_allowed
+    dns.rdata.load_all_types(False)
+    dns.rdata._dynamic_load_allowed = saved
+    classes = _rdata_subclasses()
+    registered = set(dns.rdata._rdata_classes.values())
+    # ---- class level: the mixin is in place and every __init__/__setstate__ in the chain is wrapped
+    for c in sorted(classes | {dns.rdata.Rdata, dns.name.Name, dns.rdataset.ImmutableRdataset, dns.immutable.Dict},
+                    key=lambda c: (c.__module__, c.__qualname__)):
+        label = c.__module__ + "." + c.__qualname__
+        count[0] += 1
+        if ictx._Immutable not in c.__mro__:
+            F.append({"kind": "immutable:class", "what": f"{label} is not @immutable", "cls": label})
+            continue
+        if c.__setattr__ is not ictx._Immutable.__setattr__ or c.__delattr__ is not ictx._Immutable.__delattr__:
+            F.append({"kind": "immutable:class", "what": f"{label} overrides __setattr__/__delattr__ of the guard", "cls": label})
+        for k in c.__mro__:
+            if k in (object, ictx._Immutable) or ictx._Immutable not in k.__mro__:
+                continue
+            for meth in ("__init__", "__setstate__"):
+                f = vars(k).get(meth)
+                if f is not None and not _nf_wrapped(f):
+                    F.append({"kind": "immutable:class", "what": f"{k.__module__}.{k.__qualname__}.{meth} is not wrapped by @immutable", "cls": label})
+    # ---- instance level
+    covered = set()
+    insts = []
+    for c_, t_, text in SAMPLES:
+        try:
+            insts.append((f"{c_} {t_}", dns.rdata.from_text(c_, t_, text, relativize=False)))
+        except Exception as e:  # noqa
+            F.append({"kind": "immutable:sample", "what": f"sample {c_} {t_} {text!r} does not parse: {type(e).__name__} {e}", "cls": t_})
+    for c_, t_, hx in WIRE_SAMPLES:
+        try:
+            w = bytes.fromhex(hx)
+            insts.append((f"{c_} {t_}", dns.rdata.from_wire(c_, t_, w, 0, len(w))))
+        except Exception as e:  # noqa
+            F.append({"kind": "immutable:sample", "what": f"wire sample {c_} {t_} does not parse: {type(e).__name__} {e}", "cls": t_})
+    # relative-name variants too (their fields are Names as well)
+    insts.append(("IN NS rel", dns.rdata.from_text("IN", "NS", "foo", relativize=False)))
+    for label, rd in insts:
+        covered.add(type(rd))
+        _probe_object(rd, label, F, count)
+        bad = []
+        is_immutable_value(rd, label, bad)
+        count[0] += 1
+        for path, why in bad:
+            F.append({"kind": "immutable:field", "what": f"{path} holds a mutable value ({why})", "cls": label, "attr": path})
+        # value semantics survive a wire round trip: equal, same hash
+        try:
+            w = rd.to_wire(origin=ROOT)
+            rd2 = dns.rdata.from_wire(rd.rdclass, rd.rdtype, w, 0, len(w))
+            count[0] += 1
+            if rd.to_digestable(ROOT) == rd2.to_digestable(ROOT) and "rel" not in label:
+                if not (rd == rd2 and hash(rd) == hash(rd2) and not (rd != rd2) and not (rd < rd2) and rd <= rd2):
+                    F.append({"kind": "value:roundtrip", "what": f"{label}: wire round trip gives an unequal / differently hashed record", "cls": label})
+        except Exception as e:  # noqa
+            F.append({"kind": "value:roundtrip", "what": f"{label}: {type(e).__name__} {e}", "cls": label})
+    missing = sorted(c.__module__ + "." + c.__qualname__ for c in registered - covered)
+    ctx.notes["immutability_classes"] = len(classes)
+    ctx.notes["immutability_instances"] = len(insts)
+    ctx.notes["immutability_registered_without_sample"] = missing
+    # SVCB params and friends are reached through the fields of the instances above.
+    # ---- Name, ImmutableRdataset, immutable.Dict
+    n = dns.name.from_text("Foo.Example.")
+    _probe_object(n, "Name", F, count)
+    bad = []
+    is_immutable_value(n, "Name", bad)
+    rds = dns.rdataset.from_text("IN", "A", 300, "10.0.0.1", "10.0.0.2")
+    irds = dns.rdataset.ImmutableRdataset(rds)
+    _probe_object(irds, "ImmutableRdataset", F, count)
+    if not isinstance(irds.items, dns.immutable.Dict):
+        bad.append(("ImmutableRdataset.items", type(irds.items).__name__))
+    _probe_object(irds.items, "immutable.Dict", F, count)
+    rds.add(dns.rdata.from_text("IN", "A", "10.0.0.3"))
+    if len(irds) != 2:
+        bad.append(("ImmutableRdataset.items", "shares the dict of the source rdataset"))
+    for path, why in bad:
+        F.append({"kind": "immutable:field", "what": f"{path} holds a mutable value ({why})", "cls": path, "attr": path})
+    ctx.notes["extra_evaluations"] = count[0]
+    ctx.notes["extra_nontrivial"] = len(insts) + len(classes)
+    return F
